@@ -1,1 +1,4 @@
 pub mod diffmon;
+pub mod c03;
+pub mod c20;
+pub mod callmon;
